@@ -1077,6 +1077,9 @@ func bindArgs(p *PodRec, node string) *schedulerapi.ExtenderBindingArgs {
 	return &schedulerapi.ExtenderBindingArgs{PodName: p.Name, PodNamespace: NS, PodUID: types.UID(p.UID), Node: node}
 }
 
+// TruthPod returns the pod object of the API-server truth.
+func (w *World) TruthPod(name string) *corev1.Pod { return w.truthPod(name) }
+
 // EniPodSpec is a pod spec requesting the floating-IP resource.
 func EniPodSpec() corev1.PodSpec { return eniPodSpec() }
 
